@@ -171,5 +171,4 @@ async fn gs_first_stop_spawn() {
     assert_eq!(*log.borrow().last().unwrap(), Ev::Polled(false), "gd.keep");
     *done.borrow_mut() = true;
     assert!(poll_now(driver.as_mut()).is_ready());
-    drop(client);
 }
